@@ -899,8 +899,12 @@ class HistogramBase(abc.ABC):
             new._meta_data = self._merge_meta_data(self, other)
         return new
 
+    # Let `numpy_scalar * histogram` (and `array + histogram`) reach the reflected operators
+    # below instead of converting the histogram into a bare array of frequencies.
+    __array_priority__ = 100
+
     def __radd__(self, other):
-        if other == 0:  # Enable sum()
+        if np.isscalar(other) and other == 0:  # Enable sum()
             return self.copy()
         return self + other
 
